@@ -39,6 +39,8 @@ func (cp *CachedPlanner) WithPlannerExecutor(e Planner) *CachedPlanner {
 
 func (cp *CachedPlanner) hash(ctx *PlanningContext) hashKey {
 	s := format.NewBufferedFormatter().FormatSelectionSet(ctx.Operation.SelectionSet)
+	// the same selection can be a query and a mutation (or subscription) with different plans
+	s = string(ctx.Operation.Operation) + " " + s
 	sha1 := sha1.Sum([]byte(s))
 	return sha1
 }
